@@ -30,7 +30,9 @@ import (
 
 	"github.com/VKCOM/statshouse/internal/api"
 	"github.com/VKCOM/statshouse/internal/data_model"
+	"github.com/VKCOM/statshouse-go"
 	"github.com/VKCOM/statshouse/internal/format"
+	"github.com/VKCOM/statshouse/internal/metajournal"
 	"github.com/VKCOM/statshouse/internal/verifx"
 )
 
@@ -60,6 +62,10 @@ type tf struct {
 	tagX int
 	vals []tv
 	re2  string
+	// a filter given as the user's filter strings: vals is what the REAL GetTagFilter made of them
+	fromStrings bool
+	strs        []string
+	strOK       []bool
 }
 
 type mref struct {
@@ -85,6 +91,7 @@ type caseT struct {
 	settings   string
 	tag        format.MetricMetaTag
 	numResults int
+	mapping    map[string]int32 // string -> id mappings known to the handler
 }
 
 func (c *caseT) filters(sub func(string) string) (fi, fn data_model.TagFilters) {
@@ -162,7 +169,9 @@ func regexes(r *verifx.Rng) string {
 }
 
 var mappedPool = []int64{0, 1, 2, 3, 7, -1, -2, 100, 2147483647, -2147483648, 4294967296, 4294967297, 1 << 40, -(1 << 40),
-	9223372036854775807, -9223372036854775808}
+	9223372036854775807, -9223372036854775808,
+	// 64-bit raw values whose low half has bit 31 set (a sign-extended low half would corrupt the high half)
+	3000000000, 0x180000000, 2147483648, 0x1ffffffff, 0x7fffffff80000001, -0x100000000 + 0x80000000, 0x12345678 << 32 | 0xdeadbeef}
 
 func genValue(r *verifx.Rng) tv {
 	switch r.Pick(30, 20, 20, 12, 4, 5, 5, 4) {
@@ -219,6 +228,7 @@ func genCase(r *verifx.Rng, h *verifx.H) *caseT {
 		m := &format.MetricMetaValue{MetricID: []int32{1000, 1, -5, 0, 2147483647}[r.Pick(60, 10, 10, 10, 10)], Name: "m"}
 		n := []int{0, 1, 3, 8, 16, 48}[r.Intn(6)]
 		m.Tags = make([]format.MetricMetaTag, n)
+		leUsed := false
 		for i := range m.Tags {
 			// Index as restored from the position (RestoreCachedInfo tests it before assigning it: with Index still 0 a
 			// raw64 kind on the LAST tag survives validation and whereIntExpr/raw64Expr then panics in format.TagID(48);
@@ -229,6 +239,19 @@ func genCase(r *verifx.Rng, h *verifx.H) *caseT {
 				m.Tags[i].RawKind = rawKinds[r.Intn(len(rawKinds))]
 			case 2:
 				m.Tags[i].RawKind = []string{"int64", "uint64"}[r.Intn(2)]
+			}
+			if m.Tags[i].RawKind != "" && r.Chance(1, 2) {
+				// raw value comments: raw code -> comment; a duplicate comment is ambiguous, " x" is not a raw code
+				m.Tags[i].ValueComments = map[string]string{}
+				for _, k := range []string{" 1", " 2", " 7", " -4", " 0", " x", " 3000000000"} {
+					if r.Chance(1, 2) {
+						m.Tags[i].ValueComments[k] = []string{"one", "two", "dup", "dup", "it's", "a\\", "zero"}[r.Intn(7)]
+					}
+				}
+			}
+			if m.Tags[i].RawKind != "" && !leUsed && r.Chance(1, 6) {
+				m.Tags[i].Name = "le"
+				leUsed = true
 			}
 		}
 		switch r.Pick(40, 50, 10) {
@@ -278,6 +301,46 @@ func genCase(r *verifx.Rng, h *verifx.H) *caseT {
 		}
 		return r.Intn(format.MaxTags)
 	}
+	c.mapping = map[string]int32{}
+	var mappedStrs []string
+	for k := r.Range(2, 6); k > 0; k-- {
+		ms := hostile(r)
+		if ms == "" || strings.HasPrefix(ms, " ") {
+			continue
+		}
+		if _, dup := c.mapping[ms]; !dup {
+			c.mapping[ms] = []int32{1, 2, 3, 5, 17, 100, 2147483647}[r.Intn(7)]
+			mappedStrs = append(mappedStrs, ms)
+		}
+	}
+	userStr := func(x int) string {
+		raw := c.raw(x)
+		switch r.Pick(8, 14, 4, 12, 6, 6, 25, 25) {
+		case 0:
+			return ""
+		case 1:
+			return " 0" // format.TagValueCodeZero: the unset value
+		case 2:
+			return []string{" 00", " -0", " +0"}[r.Intn(3)]
+		case 3:
+			return []string{" 1", " 2", " 7", " -1", " -4", " +5", " 100", " -2"}[r.Intn(8)]
+		case 4:
+			return []string{" 3000000000", " 6442450944", " 9223372036854775807", " -9223372036854775808", " 2147483648"}[r.Intn(5)]
+		case 5:
+			return []string{" ", " abc", " 1x", " 99999999999999999999", " --1", " 1_0", "  1", " 0x10"}[r.Intn(8)] // not raw codes
+		case 6:
+			if raw && c.metric != nil && len(c.metric.Tags[x].ValueComments) > 0 && r.Chance(3, 4) {
+				return []string{"one", "two", "dup", "it's", "a\\", "zero"}[r.Intn(6)]
+			}
+			if raw && c.metric.Tags[x].Name == "le" && r.Chance(3, 4) {
+				return []string{"0.5", "1", "+Inf", "-2.25", "1e3", "NaN", "0"}[r.Intn(7)]
+			}
+			if len(mappedStrs) > 0 {
+				return mappedStrs[r.Intn(len(mappedStrs))]
+			}
+		}
+		return hostile(r)
+	}
 	genFilters := func() []tf {
 		var res []tf
 		used := map[int]bool{}
@@ -288,6 +351,15 @@ func genCase(r *verifx.Rng, h *verifx.H) *caseT {
 			}
 			used[x] = true
 			f := tf{tagX: x}
+			if r.Chance(45, 100) {
+				// the user's filter strings; converted by the real GetTagFilter in main
+				f.fromStrings = true
+				for n := r.Pick(0, 45, 30, 15, 10); n > 0; n-- {
+					f.strs = append(f.strs, userStr(x))
+				}
+				res = append(res, f)
+				continue
+			}
 			if r.Chance(30, 100) {
 				f.re2 = regexes(r)
 			}
@@ -532,10 +604,39 @@ func balanced(ts []tok) bool {
 	return d == 0
 }
 
+// val is a ClickHouse value: a string, or an integer with its type (bits 8/16/32/64, signed). bits == 0 means "Int64"
+// (literals and columns whose width does not matter here). Trusted ClickHouse typing rules used by the evaluator:
+// tagN/pre_tag/_prekey are Int32 columns, _tagN aliases are Int64; toUInt32(x) keeps the low 32 bits as UInt32; toInt64(x)
+// preserves the value; bitShiftLeft(a,n) has the type of a and shifts inside its width; bitOr(a,b) converts both operands,
+// value-preserving, to the common type (widest width; signed if either is signed, one step wider when a signed and an unsigned
+// operand have the same width) — so a negative Int32 operand is sign-extended; comparisons and IN compare by value.
 type val struct {
-	isStr bool
-	i     int64
-	s     string
+	isStr  bool
+	i      int64
+	s      string
+	bits   int
+	signed bool
+}
+
+func (v val) width() (int, bool) {
+	if v.bits == 0 {
+		return 64, true
+	}
+	return v.bits, v.signed
+}
+
+func sameVal(a, b val) bool { return a.isStr == b.isStr && a.i == b.i && a.s == b.s }
+
+// fit reinterprets the low `bits` bits of x as a signed/unsigned integer
+func fit(x uint64, bits int, signed bool) int64 {
+	if bits >= 64 {
+		return int64(x)
+	}
+	x &= (uint64(1) << uint(bits)) - 1
+	if signed && x>>(uint(bits)-1) == 1 {
+		return int64(x | ^((uint64(1) << uint(bits)) - 1))
+	}
+	return int64(x)
 }
 
 type env struct {
@@ -564,6 +665,13 @@ type nNot struct{ x node }
 type nBin struct {
 	and  bool
 	l, r node
+}
+
+func b2i(b bool) int {
+	if b {
+		return 1
+	}
+	return 0
 }
 
 func b2v(b bool) val {
@@ -600,22 +708,37 @@ func (n nCall) eval(e *env) (val, error) {
 		if len(a) != 1 || a[0].isStr {
 			return val{}, bad
 		}
-		return val{i: int64(uint32(a[0].i))}, nil
+		return val{i: int64(uint32(a[0].i)), bits: 32, signed: false}, nil
 	case "toInt64":
 		if len(a) != 1 || a[0].isStr {
 			return val{}, bad
 		}
-		return a[0], nil
+		return val{i: a[0].i, bits: 64, signed: true}, nil
 	case "bitShiftLeft":
-		if len(a) != 2 || a[0].isStr || a[1].isStr {
+		if len(a) != 2 || a[0].isStr || a[1].isStr || a[1].i < 0 {
 			return val{}, bad
 		}
-		return val{i: a[0].i << uint(a[1].i)}, nil
+		w, sg := a[0].width()
+		if a[1].i >= int64(w) {
+			return val{bits: w, signed: sg}, nil
+		}
+		return val{i: fit(uint64(a[0].i)<<uint(a[1].i), w, sg), bits: w, signed: sg}, nil
 	case "bitOr":
 		if len(a) != 2 || a[0].isStr || a[1].isStr {
 			return val{}, bad
 		}
-		return val{i: a[0].i | a[1].i}, nil
+		w0, s0 := a[0].width()
+		w1, s1 := a[1].width()
+		w := w0
+		if w1 > w {
+			w = w1
+		}
+		sg := s0 || s1
+		if s0 != s1 && ((s0 && w1 >= w0) || (s1 && w0 >= w1)) && w < 64 {
+			w *= 2 // signed and unsigned of the same effective width: next wider signed type
+		}
+		// both operands are converted value-preservingly: their int64 representation IS the converted value
+		return val{i: fit(uint64(a[0].i|a[1].i), w, sg), bits: w, signed: sg}, nil
 	}
 	return val{}, bad
 }
@@ -631,7 +754,7 @@ func (n nCmp) eval(e *env) (val, error) {
 	if l.isStr != r.isStr {
 		return val{}, fmt.Errorf("type mismatch in %s", n.op)
 	}
-	eq := l == r
+	eq := sameVal(l, r)
 	switch n.op {
 	case "=":
 		return b2v(eq), nil
@@ -662,7 +785,7 @@ func (n nIn) eval(e *env) (val, error) {
 		if v.isStr != l.isStr {
 			return val{}, fmt.Errorf("type mismatch in IN")
 		}
-		if v == l {
+		if sameVal(v, l) {
 			found = true
 		}
 	}
@@ -888,6 +1011,163 @@ func reMatch(re, s string) bool {
 	return f.Sum32()&1 == 1
 }
 
+
+// ---------------------------------------------------------------- user filter strings -> TagValue (the REAL GetTagFilter)
+
+type tagCtx struct {
+	inTags, raw, isLe bool
+	comments          map[string]string // raw code -> comment
+}
+
+func (c *caseT) ctx(x int) tagCtx {
+	var t tagCtx
+	if c.metric != nil && x >= 0 && x < len(c.metric.Tags) {
+		t.inTags = true
+		t.raw = c.metric.Tags[x].Raw()
+		t.isLe = c.metric.Tags[x].Name == "le"
+		t.comments = c.metric.Tags[x].ValueComments
+	}
+	return t
+}
+
+func leEncode(s string) (int64, bool) {
+	f, err := strconv.ParseFloat(s, 32)
+	if err != nil {
+		return 0, false
+	}
+	return int64(statshouse.LexEncode(float32(f))), true
+}
+
+func convertFilterStrings(h *verifx.H, c *caseT) {
+	var keys []string
+	for k := range c.mapping {
+		keys = append(keys, k)
+	}
+	sort.Strings(keys)
+	for _, k := range keys {
+		h.Op("map %s %d", verifx.Hex([]byte(k)), c.mapping[k])
+	}
+	ms := metajournal.VerifMappings(c.mapping)
+	metric := c.metric
+	if metric == nil {
+		metric = &format.MetricMetaValue{} // the promql engine never passes a nil metric
+	}
+	for _, fs := range [][]tf{c.in, c.notin} {
+		for fi := range fs {
+			f := &fs[fi]
+			if !f.fromStrings {
+				continue
+			}
+			t := c.ctx(f.tagX)
+			var cs []string
+			var ck []string
+			for k := range t.comments {
+				ck = append(ck, k)
+			}
+			sort.Strings(ck)
+			for _, k := range ck {
+				cs = append(cs, verifx.Hex([]byte(k))+":"+verifx.Hex([]byte(t.comments[k])))
+			}
+			for _, s := range f.strs {
+				le := "-"
+				if e, ok := leEncode(s); ok {
+					le = strconv.FormatInt(e, 10)
+				}
+				h.Op("gtf %d %d %d %s %s %s", b2i(t.inTags), b2i(t.raw), b2i(t.isLe), verifx.List(cs), le, verifx.Hex([]byte(s)))
+				var v data_model.TagValue
+				var err error
+				func() {
+					defer func() {
+						if p := recover(); p != nil {
+							err = fmt.Errorf("panic: %v", p)
+							h.Viol("tagfilter-panic", "GetTagFilter(%q) panicked: %v", s, p)
+						}
+					}()
+					v, err = api.VerifGetTagFilter(ms, metric, f.tagX, s)
+				}()
+				h.Stat("filterstring", 1)
+				if err != nil {
+					h.Obs("tv-error")
+					h.Stat("filterstring.error", 1)
+					f.strOK = append(f.strOK, false)
+					continue
+				}
+				x := tv{mapped: v.Mapped, s: v.Value}
+				if v.HasValue() {
+					x.flags |= 1
+				}
+				if v.IsMapped() {
+					x.flags |= 2
+				}
+				h.Obs("tv %d:%d:%s", x.flags, x.mapped, verifx.Hex([]byte(x.s)))
+				f.strOK = append(f.strOK, true)
+				f.vals = append(f.vals, x)
+				switch {
+				case s == " 0":
+					h.Stat("filterstring.code-zero", 1)
+				case strings.HasPrefix(s, " "):
+					h.Stat("filterstring.raw-code", 1)
+				case t.inTags && t.raw:
+					h.Stat("filterstring.on-raw-tag", 1)
+				case x.mapped == int64(format.TagValueIDDoesNotExist):
+					h.Stat("filterstring.unmapped", 1)
+				default:
+					h.Stat("filterstring.mapped", 1)
+				}
+			}
+		}
+	}
+}
+
+// wantsStr is the meaning of one user filter string for a row's tag (n = integer value, str = string value), independent of
+// GetTagFilter and of the query builder: "" and the raw code of zero are the EMPTY value (n = 0 and, unless the tag is raw, no
+// string value); a raw code " k" is the integer k; on a raw tag a comment stands for its raw code and a bucket label for its
+// lexicographic encoding; any other string is the value itself — stored mapped (n = its id) or as an unmapped string.
+// ok = false: the string has no defined meaning (invalid code, ambiguous comment).
+func wantsStr(s string, t tagCtx, mapping map[string]int32, n int64, str string) (want, ok bool) {
+	raw := t.inTags && t.raw
+	empty := n == 0 && (raw || str == "")
+	if s == "" {
+		return empty, true
+	}
+	if strings.HasPrefix(s, " ") {
+		k, err := strconv.ParseInt(s[1:], 10, 64)
+		if err != nil {
+			return false, false
+		}
+		if k == 0 {
+			return empty, true
+		}
+		return n == k, true
+	}
+	if raw {
+		if t.isLe {
+			if e, ok := leEncode(s); ok {
+				return n == e, true
+			}
+		}
+		var hits []string
+		for k, cm := range t.comments {
+			if cm == s {
+				hits = append(hits, k)
+			}
+		}
+		switch len(hits) {
+		case 0:
+			return false, true // no such comment: nothing is requested
+		case 1:
+			k, err := strconv.ParseInt(strings.TrimPrefix(hits[0], " "), 10, 64)
+			if err != nil || !strings.HasPrefix(hits[0], " ") {
+				return false, false
+			}
+			return n == k, true
+		}
+		return false, false
+	}
+	id, found := mapping[s]
+	return (found && n == int64(id)) || str == s, true
+}
+
 // ---------------------------------------------------------------- specification of "the requested filters"
 
 func specTag(isIn, raw bool, f tf, n int64, s string) bool {
@@ -1045,6 +1325,7 @@ func main() {
 	h.Cases(func(i int, r *verifx.Rng) {
 		c := genCase(r, h)
 		lod := c.lod()
+		convertFilterStrings(h, c)
 		ident := func(s string) string { return s }
 		// benign twin: every non-empty user string occurrence replaced by a unique alphanumeric marker
 		back := map[string]string{}
@@ -1074,12 +1355,6 @@ func main() {
 					raw64s = append(raw64s, k)
 				}
 			}
-		}
-		b2i := func(b bool) int {
-			if b {
-				return 1
-			}
-			return 0
 		}
 		h.Op("cfg %d %d %d %d %d %d %d %s %s %s", c.mode, c.from, c.to, b2i(c.hasPreKey), hasMetric, mid, pk,
 			verifx.List(raws), verifx.List(raw64s), verifx.List(c.by))
@@ -1237,7 +1512,10 @@ func main() {
 		}
 		sort.Ints(tags)
 		intExpr := map[int]node{}
+		intText := map[int]string{}
 		strCol := map[int]string{}
+		// raw64 tags whose where expression reassembles the value from two plain Int32 columns (not an alias, no prekey column)
+		raw64Plain := map[int]bool{}
 		for _, x := range tags {
 			s, err := api.VerifWhereIntExpr(q, lod, x)
 			if err != nil {
@@ -1250,14 +1528,77 @@ func main() {
 				return
 			}
 			intExpr[x] = n
+			intText[x] = s
 			strCol[x] = api.VerifColStr(q, x)
+			if c.metric != nil && x < len(c.metric.Tags) && c.metric.Tags[x].Raw64() && x+1 < format.MaxTags {
+				if _, isCol := n.(nCol); !isCol && api.VerifColInt(q, lod, x) == "tag"+strconv.Itoa(x) &&
+					api.VerifColInt(q, lod, x+1) == "tag"+strconv.Itoa(x+1) {
+					raw64Plain[x] = true
+				}
+			}
+		}
+		// ---- integer expressions: the real text evaluated with ClickHouse's typing vs the model's tree, on edge halves
+		for _, x := range tags {
+			halves := [][2]int64{{0, 0}, {0, -1}, {1, -2147483648}, {-1, -1294967296}, {2147483647, -1}, {-2147483648, 0}}
+			for k := 0; k < 3; k++ {
+				halves = append(halves, [2]int64{int64(int32(r.U64())), int64(int32(r.U64()))})
+			}
+			for _, fs := range [][]tf{c.in, c.notin} {
+				for _, f := range fs {
+					if f.tagX == x {
+						for _, v := range f.vals {
+							if v.flags&2 != 0 {
+								halves = append(halves, [2]int64{int64(int32(v.mapped >> 32)), int64(int32(uint32(v.mapped)))})
+							}
+						}
+					}
+				}
+			}
+			if !raw64Plain[x] {
+				halves = halves[:3]
+			}
+			for _, hl := range halves {
+				alias, pkv := int64(r.Range(-5, 5)), int64(r.Range(-5, 5))
+				ev := &env{cols: map[string]val{"_tag" + strconv.Itoa(x): {i: alias, bits: 64, signed: true}, "_prekey": {i: pkv, bits: 32, signed: true}}}
+				if x+1 < format.MaxTags {
+					ev.cols[api.VerifColInt(q, lod, x+1)] = val{i: hl[0], bits: 32, signed: true}
+				}
+				ev.cols[api.VerifColInt(q, lod, x)] = val{i: hl[1], bits: 32, signed: true}
+				h.Op("iex %d %d %d %d %d", x, hl[0], hl[1], alias, pkv)
+				got, err := intExpr[x].eval(ev)
+				if err != nil {
+					h.Obs("iex-error")
+					h.Viol("malformed-where", "int expression %q cannot be evaluated: %v", intText[x], err)
+					continue
+				}
+				w, sg := got.width()
+				h.Obs("iex %d %d %d", b2i(w == 64), b2i(sg), got.i)
+				h.Stat("iex", 1)
+				if raw64Plain[x] {
+					h.Stat("iex.raw64", 1)
+					if hl[1] < 0 {
+						h.Stat("iex.raw64.low-bit31", 1)
+					}
+					if enc := hl[0]<<32 | int64(uint32(hl[1])); got.i != enc {
+						h.Viol("raw64-expr-wrong-value", "tag %d: hi=%d lo=%d encode %d but the where expression %q evaluates to %d", x, hl[0], hl[1], enc, intText[x], got.i)
+					}
+					// the select list reassembles the same value (it is what the alias _tagN means)
+					if se, isCol := api.VerifSelectIntExpr(q, lod, x); !isCol {
+						if sn, err := parseExpr(se); err == nil {
+							if sv, err := sn.eval(ev); err == nil && sv.i != hl[0]<<32|int64(uint32(hl[1])) {
+								h.Viol("raw64-select-wrong-value", "tag %d: hi=%d lo=%d but the select expression %q evaluates to %d", x, hl[0], hl[1], se, sv.i)
+							}
+						}
+					}
+				}
+			}
 		}
 		var intPool []int64
 		var strPool []string
 		for _, fs := range [][]tf{c.in, c.notin} {
 			for _, f := range fs {
 				for _, v := range f.vals {
-					if v.flags&2 != 0 {
+					if v.flags&2 != 0 && !(f.fromStrings && v.mapped == int64(format.TagValueIDDoesNotExist)) {
 						intPool = append(intPool, v.mapped)
 					}
 					if v.flags&1 != 0 {
@@ -1302,9 +1643,9 @@ func main() {
 				return hostile(r)
 			}
 			for x := 0; x < format.MaxTags; x++ {
-				cols["tag"+strconv.Itoa(x)] = val{}
+				cols["tag"+strconv.Itoa(x)] = val{bits: 32, signed: true}
 				cols["stag"+strconv.Itoa(x)] = val{isStr: true}
-				cols["_tag"+strconv.Itoa(x)] = val{}
+				cols["_tag"+strconv.Itoa(x)] = val{bits: 64, signed: true}
 			}
 			pkx := -1
 			if c.metric != nil {
@@ -1312,7 +1653,7 @@ func main() {
 			} else if len(c.fim) == 1 {
 				pkx = format.TagIndex(c.fim[0].pk)
 			}
-			cols["_prekey"] = val{i: pickInt()}
+			cols["_prekey"] = val{i: int64(int32(uint32(pickInt()))), bits: 32, signed: true}
 			aim := r.Chance(1, 2) // a row meant to satisfy the positive filters and the fixed conditions
 			for _, x := range tags {
 				// logical target (n, s) for this tag: aimed at a requested value, the empty row, or random
@@ -1340,7 +1681,7 @@ func main() {
 						v := pool[r.Intn(len(pool))]
 						switch {
 						case v.empty():
-						case v.flags&2 != 0 && (v.flags&1 == 0 || r.Chance(1, 2)):
+						case v.flags&2 != 0 && (v.flags&1 == 0 || (r.Chance(1, 2) && v.mapped != int64(format.TagValueIDDoesNotExist))):
 							tn = v.mapped
 						case v.flags&1 != 0:
 							ts = v.s
@@ -1355,17 +1696,17 @@ func main() {
 						ts = pickStr()
 					}
 				}
-				cols["tag"+strconv.Itoa(x)] = val{i: int64(int32(uint32(tn)))}
+				cols["tag"+strconv.Itoa(x)] = val{i: int64(int32(uint32(tn))), bits: 32, signed: true}
 				if x+1 < format.MaxTags && !involved[x+1] {
-					cols["tag"+strconv.Itoa(x+1)] = val{i: tn >> 32}
+					cols["tag"+strconv.Itoa(x+1)] = val{i: int64(int32(tn >> 32)), bits: 32, signed: true}
 				}
-				cols["_tag"+strconv.Itoa(x)] = val{i: tn}
+				cols["_tag"+strconv.Itoa(x)] = val{i: tn, bits: 64, signed: true}
 				if x == pkx {
-					cols["_prekey"] = val{i: tn}
+					cols["_prekey"] = val{i: int64(int32(uint32(tn))), bits: 32, signed: true}
 				}
 				cols["stag"+strconv.Itoa(x)] = val{isStr: true, s: ts}
 			}
-			cols["pre_tag"] = val{i: []int64{0, 0, 0, 0, 0, 0, 0, pickInt()}[r.Intn(8)]}
+			cols["pre_tag"] = val{i: int64(int32(uint32([]int64{0, 0, 0, 0, 0, 0, 0, pickInt()}[r.Intn(8)]))), bits: 32, signed: true}
 			cols["pre_stag"] = val{isStr: true, s: []string{"", "", "", "", "", "", "", "", "", "x"}[r.Intn(10)]}
 			cols["index_type"] = val{i: []int64{0, 0, 0, 0, 0, 0, 0, 0, 0, 1}[r.Intn(10)]}
 			if aim {
@@ -1403,6 +1744,15 @@ func main() {
 					return
 				}
 				logical[x] = lv{nv.i, cols[strCol[x]].s}
+				if raw64Plain[x] {
+					// the 64-bit raw value the two Int32 columns encode — NOT taken from the builder's expression
+					hi, lo := cols["tag"+strconv.Itoa(x+1)].i, cols["tag"+strconv.Itoa(x)].i
+					enc := hi<<32 | int64(uint32(lo))
+					if nv.i != enc {
+						h.Viol("raw64-expr-wrong-value", "tag %d: hi=%d lo=%d encode %d but the where expression %q evaluates to %d", x, hi, lo, enc, intText[x], nv.i)
+					}
+					logical[x] = lv{enc, cols[strCol[x]].s}
+				}
 			}
 			// specification
 			want := tm >= c.from && tm < c.to && cols["index_type"].i == 0 && cols["pre_tag"].i == 0 && cols["pre_stag"].s == ""
@@ -1427,17 +1777,37 @@ func main() {
 					want = want && int64(m.id) != mv
 				}
 			}
-			for _, f := range c.in {
-				if len(f.vals) == 0 && f.re2 == "" {
-					continue
+			specOK := true
+			for pi, fs := range [][]tf{c.in, c.notin} {
+				for _, f := range fs {
+					if len(f.vals) == 0 && f.re2 == "" {
+						continue
+					}
+					l := logical[f.tagX]
+					if !f.fromStrings {
+						want = want && specTag(pi == 0, c.raw(f.tagX), f, l.n, l.s)
+						continue
+					}
+					// the filter as the user wrote it: the row matches iff its value is one of the listed strings' meanings
+					if l.n == int64(format.TagValueIDDoesNotExist) {
+						specOK = false // -2 is the reserved "no such mapping" id, rows do not hold it
+					}
+					m := false
+					for k, us := range f.strs {
+						if !f.strOK[k] {
+							continue
+						}
+						w, ok := wantsStr(us, c.ctx(f.tagX), c.mapping, l.n, l.s)
+						if !ok {
+							specOK = false
+						}
+						m = m || w
+					}
+					want = want && (m == (pi == 0))
 				}
-				want = want && specTag(true, c.raw(f.tagX), f, logical[f.tagX].n, logical[f.tagX].s)
 			}
-			for _, f := range c.notin {
-				if len(f.vals) == 0 && f.re2 == "" {
-					continue
-				}
-				want = want && specTag(false, c.raw(f.tagX), f, logical[f.tagX].n, logical[f.tagX].s)
+			if !specOK {
+				h.Stat("rows.semantic-oracle-skipped", 1)
 			}
 			// regex table for the model: every (pattern, subject) the spec could consult
 			for _, fs := range [][]tf{c.in, c.notin} {
@@ -1469,7 +1839,7 @@ func main() {
 			if got.i != 0 {
 				selected++
 			}
-			if invariantOK && (got.i != 0) != want {
+			if invariantOK && specOK && (got.i != 0) != want {
 				h.Viol("where-selects-wrong-rows", "row %v: where-clause gives %v, requested filters give %v; where=%q", ls, got.i != 0, want, where)
 			}
 		}
